@@ -349,6 +349,20 @@ def judge(rec, rnd, tmp, k):
                     rec.violation('faulty-source-still-contributes:' + fault, f'{name}: {sum(h3[name].values())} transactions', case)
             except Exception as e:
                 rec.violation('source-fault-report-unreadable:' + fault, f'{type(e).__name__}: {e}', case)
+            # ... and the machine-readable formats under --quiet: what is on stdout IS the document (a script pipes it into a JSON parser), whatever
+            # there is to say about the source that could not be read
+            fmt = rnd.choice(['json', 'markdown'])
+            pf2 = B.tally(root, 'up', cfg, '--format', fmt, '-q')
+            rec.count('cli_runs')
+            rec.count('quiet_document_checks')
+            if pf2.returncode == 0:
+                try:
+                    if fmt == 'json':
+                        json.loads(pf2.stdout)
+                    elif not pf2.stdout.lstrip().startswith('#'):
+                        raise ValueError('does not start with a heading')
+                except ValueError as e:
+                    rec.violation('quiet-output-is-not-the-document:' + fmt, f'{fault} source {name}: `up --format {fmt} -q` prints {pf2.stdout[:120]!r} ({e})', case)
     shutil.rmtree(root, ignore_errors=True)
 
 
